@@ -78,6 +78,26 @@ RECURSIVE Strs(_, _)
 Strs(alpha, n) ==
   IF n = 0 THEN {<<>>} ELSE {<<>>} \cup { <<c>> \o s : c \in alpha, s \in Strs(alpha, n - 1) }
 
+\* ---- one way to diverge that the validator of pest does not look for (known finding): a skip rule (WHITESPACE / COMMENT)
+\* that refers - directly or through other rules - to a NON-ATOMIC (`!`) rule.  The skip rule's own body runs atomically,
+\* but the `!` rule switches implicit skipping back on, and the sequences / repetitions inside it call the skip rule
+\* again at the same position.  RefReach: all rules referred to from e, transitively.
+RECURSIVE Refs(_)
+Refs(e) == CASE e.t = "id" -> {e.n}
+             [] e.t \in {"seq", "alt"} -> Refs(e.a) \cup Refs(e.b)
+             [] e.t \in {"opt", "rep", "rep1", "not", "and", "push", "tag", "exact", "min", "max", "minmax"} -> Refs(e.a)
+             [] OTHER -> {}
+RECURSIVE RefClosure(_, _)
+RefClosure(G, S) == LET N == S \cup UNION { Refs(G[n].e) \cap DOMAIN G : n \in S } IN IF N = S THEN S ELSE RefClosure(G, N)
+SkipRules(G) == DOMAIN G \cap {"WHITESPACE", "COMMENT"}
+NonAtomicUnderSkip(G) == { n \in RefClosure(G, SkipRules(G)) \ SkipRules(G) : G[n].ty = "!" }
+\* the same grammar with those rules made ordinary rules (which inherit the atomic mode of the skip rule)
+Tamed(G) == [n \in DOMAIN G |-> IF n \in NonAtomicUnderSkip(G) THEN [G[n] EXCEPT !.ty = ""] ELSE G[n]]
+\* the divergence on witness w is of that kind: it disappears when the `!` rules under the skip rules are tamed
+SkipReentryOnly(G, w, fuel) ==
+  /\ NonAtomicUnderSkip(G) # {}
+  /\ Parse(Tamed(G), w[2], <<>>, FALSE, FALSE, fuel, w[1]).k # "div"
+
 \* a witness <<start, input>> of divergence, or <<>> if none among the inputs examined
 DivWitness(G, alpha, maxlen, fuel) ==
   LET W == { w \in (DOMAIN G) \X Strs(alpha, maxlen) :
